@@ -113,6 +113,31 @@ def file_level(ctx: Ctx, cs, base):
             ctx.violation('load-vs-loads', f'[{vname}] different error lists', case)
         if 'hostile_text' in doc.tags and vname != 'LF':
             ctx.nontriv(cs, vname)
+        # relative paths: resolved against the current directory of the caller, like open()
+        if vname == 'LF':
+            here = os.getcwd()
+            wd = os.path.join(base, f'd{cs % 10 ** 6}', 'cwd')
+            os.makedirs(wd, exist_ok=True)
+            ctx.ev()
+            ctx.mon('relative_path_cases')
+            try:
+                os.chdir(wd)
+                s_rel, err_rel = kpx.dumps(d1)
+                if err_rel is None:
+                    try:
+                        kp.dump(d2, os.path.join('rel', 'sub', 'out.krn'))
+                        got_rel = read(os.path.join(wd, 'rel', 'sub', 'out.krn')) if os.path.exists(os.path.join(wd, 'rel', 'sub', 'out.krn')) else None
+                        if got_rel != s_rel:
+                            ctx.violation('dump-vs-dumps', f'dump to the relative path rel/sub/out.krn from {wd}: the file there '
+                                          f'{"is missing" if got_rel is None else "differs from dumps"}', dict(case, relative=True))
+                        else:
+                            d3, e3 = kp.load(os.path.join('rel', 'sub', 'out.krn'))
+                            if kpx.dumps(d3)[0] != kpx.dumps(kpx.loads(s_rel)[0])[0]:
+                                ctx.violation('load-vs-loads', 'load of a relative path differs from loads of the same text', dict(case, relative=True))
+                    except Exception as ex:
+                        ctx.violation('dump-vs-dumps', f'dump / load with a relative path raised {type(ex).__name__}: {ex}', dict(case, relative=True))
+            finally:
+                os.chdir(here)
         # dump == dumps, into existing and missing nested directories, several option sets
         optsets = [{}, {'encoding': kp.Encoding.eKern}, {'spine_types': ['**kern'], 'encoding': kp.Encoding.bEkern},
                    {'exclude': {kp.TokenCategory.DECORATION}}, {'spine_types': ['**mens']}, {'spine_ids': []},
